@@ -6,5 +6,6 @@ INVARIANT TxidIgnoresWitness
 INVARIANT ExtendedIffWitness
 INVARIANT TruncationRejected
 INVARIANT BlockRoundTrip
+INVARIANT WeightRule
 INVARIANT TargetGenesis
 CHECK_DEADLOCK FALSE
